@@ -177,6 +177,22 @@ def run(repo, rep, tier):
     srcs = {unparse(n.targets[0]): unparse(n.value) for n in walk_no_nested(pt) if isinstance(n, ast.Assign) and unparse(n.targets[0]) in ('hostkey_modulus_size', 'ca_key_type', 'ca_modulus_size', 'kex_reply') and isinstance(n.value, ast.Call)}
     want = {'hostkey_modulus_size': 'kex_group.get_hostkey_size()', 'ca_key_type': 'kex_group.get_ca_type()', 'ca_modulus_size': 'kex_group.get_ca_size()', 'kex_reply': 'kex_group.recv_reply(s)'}
     rep.check('record', 'recorded values come from the key-exchange object that just parsed the reply', srcs == want, pt, 'value sources: %s' % srcs)
+    # every recorded value is re-read from the key-exchange object on EVERY path from the reply to the record (no value may
+    # survive from the previous key type of the loop)
+    from sa.cfg import CFG, describe_path
+    cpt = CFG(pt, exc_edges=False)
+    recv_nodes = cpt.stmts_matching(lambda st: isinstance(st, ast.Assign) and 'kex_group.recv_reply(' in unparse(st.value))
+    rec_nodes = cpt.stmts_matching(lambda st: isinstance(st, ast.Expr) and 'server_kex.set_host_key(' in unparse(st))
+    rep.floor('record', 'reply / record statements in perform_test', min(len(recv_nodes), len(rec_nodes)), 1)
+    for var, getter in (('hostkey_modulus_size', 'kex_group.get_hostkey_size()'), ('ca_key_type', 'kex_group.get_ca_type()'), ('ca_modulus_size', 'kex_group.get_ca_size()')):
+        gates = cpt.stmts_matching(lambda st, var=var, getter=getter: isinstance(st, ast.Assign) and unparse(st.targets[0]) == var and unparse(st.value) == getter)
+        starts = set()
+        for r in recv_nodes:
+            starts |= r.succ
+        pth = cpt.find_path(list(starts), rec_nodes, avoid=gates)
+        rep.check('record', '%s is re-read from the key-exchange object on every path from the reply to the record' % var, pth is None and bool(gates), rec_nodes[0].stmt if rec_nodes else pt,
+                  '%s can reach set_host_key() without being refreshed from %s: a key type probed later in the loop inherits the value measured for an earlier one (e.g. a plain key shown with the previous certificate\'s CA)' % (var, getter),
+                  witness=describe_path(pth) if pth else None, stmt='refresh %s' % var)
     rr = repo.func('kexdh', 'KexDH.recv_reply')
     rep.saw(rr)
     first = [unparse(s) for s in rr.body[:8] if isinstance(s, ast.Assign)]
